@@ -695,13 +695,22 @@ static void block_current (FState st) {
 static void fibre_main (unsigned lo, unsigned hi) {
 	Fibre *f = (Fibre *) (((uintptr_t) hi << 32) | lo);
 	f->fn (f->arg);
-	// thread exit: run TLS destructors (pthread_key semantics)
-	for (int k = 0; k < MAXKEYS; k++) {
-		if (f->tls_val[k] && g.key_dtor[k]) {
-			void *v = f->tls_val[k];
-			f->tls_val[k] = NULL;
-			f->opname = "thread-exit";
-			g.key_dtor[k] (v);
+	// thread exit: run TLS destructors (pthread_key semantics): passes are repeated while a destructor has stored a new value
+	// (PTHREAD_DESTRUCTOR_ITERATIONS = 4); POSIX leaves the order within a pass unspecified, so with two or more pending keys
+	// the order (ascending / descending) is a recorded choice
+	for (int pass = 0; pass < 4; pass++) {
+		int pending = 0;
+		for (int k = 0; k < MAXKEYS; k++) if (f->tls_val[k] && g.key_dtor[k]) pending++;
+		if (!pending) break;
+		int rev = pending > 1 ? nsim_choose (CH_HARNESS, 2) : 0;
+		for (int i = 0; i < MAXKEYS; i++) {
+			int k = rev ? MAXKEYS - 1 - i : i;
+			if (f->tls_val[k] && g.key_dtor[k]) {
+				void *v = f->tls_val[k];
+				f->tls_val[k] = NULL;
+				f->opname = "thread-exit";
+				g.key_dtor[k] (v);
+			}
 		}
 	}
 	// exit is a release towards joiners
@@ -1346,6 +1355,26 @@ extern "C" int nsim_sys_pthread_setspecific (pthread_key_t key, const void *v) {
 	if (!g.cur || key >= (unsigned) MAXKEYS) return EINVAL;
 	g.cur->tls_val[key] = (void *) v;
 	return 0;
+}
+
+// emulated TLS (-femulated-tls): one small zero- or template-initialised object per (fibre, control object)
+struct emutls_object { size_t size; size_t align; union { size_t offset; void *ptr; } loc; void *templ; };
+extern "C" void *nsim_sys_emutls_get_address (struct emutls_object *obj) {
+	static char outside[4][16] __attribute__ ((aligned (16)));
+	static void *outside_key[4];
+	void **keys = (g.in_run && g.cur) ? g.cur->emu_key : outside_key;
+	char (*data)[16] = (g.in_run && g.cur) ? g.cur->emu_data : outside;
+	for (int i = 0; i < 4; i++) {
+		if (keys[i] == (void *) obj) return data[i];
+		if (keys[i] == NULL) {
+			if (obj->size > 16) { rt_violation (NULL, V_ORACLE, "emutls", "thread-local object of %zu bytes not supported", obj->size); end_run (RV_VIOLATION); }
+			keys[i] = (void *) obj;
+			if (obj->templ) memcpy (data[i], obj->templ, obj->size); else memset (data[i], 0, 16);
+			return data[i];
+		}
+	}
+	rt_violation (NULL, V_ORACLE, "emutls", "more than 4 thread-local objects");
+	end_run (RV_VIOLATION);
 }
 
 // pthread mutex / cond model (c-mutexsem): state lives in the object's own memory
